@@ -328,6 +328,7 @@ class Ctx:
         self.rng = random.Random(seed)
         self.zcache = {}              # (pcsig, key, sign) -> bool/None
         self.stats = {"z3_queries": 0, "z3_unknown": 0, "forks": 0, "z3_time": 0.0}
+        self.xcheck_budget_s = 20.0
         self.skipped_boundaries = 0
         self._ssmemo = {}
         self.building = True
@@ -478,6 +479,19 @@ class Ctx:
         res = sol.check()
         self.stats["z3_time"] += time.time() - t0
         self.stats["z3_queries"] += 1
+        if res == z3.unsat:
+            # an infeasibility verdict prunes a region: second opinion of an independent solver (assumption A8);
+            # a disagreement keeps the region (explored as 'unsure'), it never prunes and never alarms
+            from . import xcheck
+            if self.stats.get("xcheck_time", 0.0) < self.xcheck_budget_s:
+                t1 = time.time()
+                xc = xcheck.second_opinion(sol, timeout_s=2)
+                self.stats["xcheck_time"] = self.stats.get("xcheck_time", 0.0) + time.time() - t1
+            else:
+                xc = "skipped"          # per-contract time budget of the second opinion exhausted (reported, z3 5.1 stands alone)
+            self.stats["xcheck_" + xc.split(":")[0].lower()] = self.stats.get("xcheck_" + xc.split(":")[0].lower(), 0) + 1
+            if xc.startswith("DISAGREE"):
+                res = z3.unknown
         sol.pop()
         if res == z3.unknown:
             # second opinion: fresh non-incremental nlsat solver with a longer budget
